@@ -78,3 +78,88 @@ pub fn prop_c07_years_antisym(a: i32, b: i32) {
     let y = years_between(b, 0, a, 0);
     assert!(x == -y);
 }
+
+pub fn prop_c14_rfc3339_nopanic(s: &str) {
+    if let Ok(dt) = DateTime::parse_rfc3339(s) {
+        assert!(dt.nanoseconds < 86_400_000_000_000);
+    }
+}
+
+/// contract of days_to_date, proven by C01 obligation (1); exact because spec_rd is injective on valid triples
+pub fn contract_days_to_date(d: i32, y: i32, m: u32, dd: u32) -> bool {
+    y != 0 && m >= 1 && m <= 12 && dd >= 1 && dd <= spec_mdays(y, m) && spec_rd(y, m, dd) == d as i64
+}
+
+use crate::DateUtilities;
+pub fn prop_probe_getters(days: i32, secs: u32) {
+    assume(secs < 86_400);
+    let now = DateTime { days, nanoseconds: secs as u64 * 1_000_000_000, offset: Offset::Fixed(0) };
+    let n = now.clear_until_second().add_minutes(1);
+    let (mo, d, wd, h, mi) = (n.month(), n.day(), n.weekday(), n.hour(), n.minute());
+    assert!(mo >= 1 && mo <= 12 && d >= 1 && d <= 31 && wd <= 6 && h <= 23 && mi <= 59);
+    let j = n.add_days(1).clear_until_hour();
+    assert!(j.nanoseconds == 0 && j.days == n.days + 1);
+}
+
+pub fn prop_probe_a(days: i32, secs: u32) {
+    assume(secs < 86_400);
+    let now = DateTime { days, nanoseconds: secs as u64 * 1_000_000_000, offset: Offset::Fixed(0) };
+    let n = now.clear_until_second();
+    assert!(n.days == days && n.nanoseconds == (secs / 60) as u64 * 60_000_000_000);
+}
+pub fn prop_probe_b(days: i32, secs: u32) {
+    assume(secs < 86_400 && secs % 60 == 0);
+    let now = DateTime { days, nanoseconds: secs as u64 * 1_000_000_000, offset: Offset::Fixed(0) };
+    let n = now.add_minutes(1);
+    assert!(n.days as i64 * 86_400 + (n.nanoseconds / 1_000_000_000) as i64 == days as i64 * 86_400 + secs as i64 + 60);
+}
+pub fn prop_probe_c(days: i32, secs: u32) {
+    assume(secs < 86_400);
+    let now = DateTime { days, nanoseconds: secs as u64 * 1_000_000_000, offset: Offset::Fixed(0) };
+    assert!(now.hour() == secs / 3600 && now.minute() == secs / 60 % 60);
+}
+pub fn prop_probe_d(days: i32, secs: u32) {
+    assume(secs < 86_400);
+    let now = DateTime { days, nanoseconds: secs as u64 * 1_000_000_000, offset: Offset::Fixed(0) };
+    let m = now.month();
+    assert!(m >= 1 && m <= 12);
+}
+
+// ---- contracts of DateTime methods used by CronSchedule::next (each is an obligation of C04/C09/C10/C02)
+const NPD_I: i128 = 86_400_000_000_000;
+fn inst(d: i32, n: u64) -> i128 { d as i128 * NPD_I + n as i128 }
+fn fdiv128(a: i128, c: i128) -> i128 { let q = a / c; if a % c < 0 { q - 1 } else { q } }
+fn fmod128(a: i128, c: i128) -> i128 { a - fdiv128(a, c) * c }
+fn local(d: i32, n: u64, off: i32) -> i128 { inst(d, n) + off as i128 * 1_000_000_000 }
+pub fn contract_dt_add_minutes(d: i32, n: u64, off: i32, k: u32, rd: i32, rn: u64) -> bool { (rn as i128) < NPD_I && inst(rd, rn) == inst(d, n) + k as i128 * 60_000_000_000 }
+pub fn contract_dt_add_hours(d: i32, n: u64, off: i32, k: u32, rd: i32, rn: u64) -> bool { (rn as i128) < NPD_I && inst(rd, rn) == inst(d, n) + k as i128 * 3_600_000_000_000 }
+pub fn contract_dt_add_days(d: i32, n: u64, off: i32, k: u32, rd: i32, rn: u64) -> bool { rn == n && rd as i64 == d as i64 + k as i64 }
+pub fn contract_dt_add_months(d: i32, n: u64, off: i32, k: u32, rd: i32, rn: u64) -> bool {
+    let (y, m, dd) = days_to_date(d);
+    let yy: i64 = if y > 0 { y as i64 } else { y as i64 + 1 };
+    let total = yy * 12 + (m as i64 - 1) + k as i64;
+    let ty = spec_floor_div(total, 12);
+    let tm = (total - ty * 12 + 1) as u32;
+    let hy = (if ty <= 0 { ty - 1 } else { ty }) as i32;
+    let md = spec_mdays(hy, tm);
+    let td = if dd > md { md } else { dd };
+    rn == n && rd as i64 == spec_rd(hy, tm, td)
+}
+fn clear_to(d: i32, n: u64, off: i32, unit: i128, rd: i32, rn: u64) -> bool {
+    let l = local(d, n, off);
+    (rn as i128) < NPD_I && inst(rd, rn) == l - fmod128(l, unit) - off as i128 * 1_000_000_000
+}
+pub fn contract_dt_clear_until_second(d: i32, n: u64, off: i32, rd: i32, rn: u64) -> bool { clear_to(d, n, off, 60_000_000_000, rd, rn) }
+pub fn contract_dt_clear_until_minute(d: i32, n: u64, off: i32, rd: i32, rn: u64) -> bool { clear_to(d, n, off, 3_600_000_000_000, rd, rn) }
+pub fn contract_dt_clear_until_hour(d: i32, n: u64, off: i32, rd: i32, rn: u64) -> bool { clear_to(d, n, off, NPD_I, rd, rn) }
+pub fn contract_dt_clear_until_day(d: i32, n: u64, off: i32, rd: i32, rn: u64) -> bool {
+    // as implemented for offset 0 (the offset-aware version is C09's subject)
+    let (y, m, _) = days_to_date(d);
+    rn == 0 && rd as i64 == spec_rd(y, m, 1)
+}
+fn local_day(d: i32, n: u64, off: i32) -> i32 { fdiv128(local(d, n, off), NPD_I) as i32 }
+pub fn contract_dt_month(d: i32, n: u64, off: i32, r: u32) -> bool { days_to_date(local_day(d, n, off)).1 == r }
+pub fn contract_dt_day(d: i32, n: u64, off: i32, r: u32) -> bool { days_to_date(local_day(d, n, off)).2 == r }
+pub fn contract_dt_weekday(d: i32, n: u64, off: i32, r: u8) -> bool { let ld = local_day(d, n, off) as i64; let w = ld - spec_floor_div(ld, 7) * 7; r as i64 == (w + 1) % 7 }
+pub fn contract_dt_hour(d: i32, n: u64, off: i32, r: u32) -> bool { r as i128 == fdiv128(fmod128(local(d, n, off), NPD_I), 3_600_000_000_000) }
+pub fn contract_dt_minute(d: i32, n: u64, off: i32, r: u32) -> bool { r as i128 == fdiv128(fmod128(local(d, n, off), 3_600_000_000_000), 60_000_000_000) }
